@@ -124,7 +124,7 @@ struct MapStream : Family {
 		while ((h << lgw) > (thorough || bigMap ? 70000u : 9000u)) h /= 2;
 		// rarely: a collection whose COUNT sits on a boundary only large files reach - tile arrays around multiples of 2^16..2^18
 		// tiles, 2^16 tileset sources or tile mappings
-		uint64_t hugeKind = r.chance(1, thorough ? 150 : 300) ? 1 + r.below(3) : 0;
+		uint64_t hugeKind = r.chance(1, thorough ? 800 : 300) ? 1 + r.below(3) : 0;
 		uint64_t hugeCount = 0;
 		if (hugeKind == 1) { lgw = r.range(9, 10); uint64_t blockTiles = 1ull << r.range(16, 18), j = r.range(1, 2); h = ((blockTiles * j) >> lgw) + r.below(5) - 2 + (r.chance(1, 2) ? 0 : r.below(40)); if ((h << lgw) > 600000) h = 600000 >> lgw; }
 		else if (hugeKind) { static const uint64_t HC[] = {65535, 65536, 65537, 65600}; hugeCount = HC[r.below(4)]; }
